@@ -6,10 +6,13 @@ LEVEL = "proof"
 RULE_TEXT = ("non-interference rule: the length of the file is observable only through failure. The file buffer (ElfBytes.data and the data "
              "parameters it is handed to, propagated interprocedurally) may only be (i) the receiver of get(a..b) with a closed range, (ii) the "
              "data argument of a bounded parse, (iii) moved into another file-buffer place; its len()/is_empty()/open ranges/iteration/indexing "
-             "and the stream's measured length may only feed a comparison one of whose outcomes leads exclusively to Err returns")
+             "and the stream's measured length may only feed a comparison one of whose outcomes leads exclusively to Err returns; "
+             "failure propagation rule: the Option/Result of every read of the file buffer and of every call to a function that transitively reads it "
+             "is examined on every path and each outcome reached with it having failed is an Err (or the result itself, forwarded); the stream "
+             "parser's I/O results obey the same discipline")
 EXPLANATION_PROOF = (
     "If a query succeeds on a prefix P of file F, every byte it read was obtained by an exact in-bounds get(a..b) or bounded parse on P, which returns "
-    "the same bytes on F (P is a prefix), and no other value computed by the query depends on the buffer length except through comparisons that "
+    "the same bytes on F (P is a prefix); a read that does not fit in P fails and by the propagation rule the query then fails too, so a successful query on P made only fitting reads; no other value computed by the query depends on the buffer length except through comparisons that "
     "would have ended in Err; hence the query computes the same answer on F. Symmetrically for appended bytes.")
 
 ROOTS = {"elf_bytes::ElfBytes::minimal_parse": 1}     # function -> index of the file-buffer parameter
@@ -100,6 +103,55 @@ def err_only_guard(an, d):
         if sel and all(t.op == "agg" and t.args[3] == "Err" for t in sel):
             return True
     return False
+
+
+def failure_propagated(an, cs, dty):
+    """every outcome of the function reached with the call's result being Err / None is an error (or the result itself, returned unchanged)"""
+    from ..streamrules import _bypass
+    R = cs.result
+    leaves = an.ret_leaves()
+    if leaves is None:
+        return False, "cannot enumerate outcomes"
+    vs = ["Ok", "Err"] if dty.startswith("result::Result") else ["Some", "None"]
+    base, names = an.norm_var(R, vs)
+    if base is None:
+        return True, "statically known outcome"
+    failname = names[1]
+
+    def tests(d):
+        if d.op != "discr":
+            return False
+        x = d.args[0]
+        for cand in (["Continue", "Break"], ["Ok", "Err"], ["Some", "None"]):
+            bx, _ = an.norm_var(x, cand)
+            if bx is base:
+                return True
+        return False
+    tested = [b for b, d in an.switches.items() if b in an.entry and tests(d) and an.dominates(cs.block, b)]
+    def is_forward(t):
+        if t is R:
+            return True
+        for cand in (["Ok", "Err"], ["Some", "None"]):
+            bx, nx = an.norm_var(t, cand)
+            if bx is base and nx[1] == failname:
+                return True
+        return False
+    forwarded = [t for t, st in leaves if is_forward(t)]
+    if not tested:
+        if forwarded:
+            return True, "result returned unchanged"
+        return False, "the result is never examined (dropped, `.ok()`, `unwrap_or`, `if let`, handed to a combinator...)"
+    if _bypass(an, cs.block, tested[0]) and not forwarded:
+        return False, "a path from the read reaches a return without examining its result"
+    fail = 0
+    for t, st in leaves:
+        if ("var", base, failname) in st.facts:
+            fail += 1
+            if not (t.op == "agg" and t.args[3] == "Err") and not is_forward(t):
+                return False, "an outcome reached with the read having failed returns %s" % pp(t)[:140]
+    if fail == 0:
+        return False, "no outcome of the function is tied to the failure of this read"
+    return True, "the %d outcome(s) reached with the read having failed are errors" % fail
 
 
 def run(ctx, rep):
@@ -216,6 +268,58 @@ def run(ctx, rep):
             else:
                 rep.bad("file-buffer-use", "%s|%s" % (q, kind), w0,
                         "%s uses the file buffer in a length-revealing way (%s): %s" % (q, kind, pp(u[2])[:160]))
+    # ---------------------------------------------------------------- failed reads stay failures
+    # A read that does not fit in the prefix fails; the answer on the prefix may then only be an error.  So the Option/Result of every
+    # read of the file buffer, and of every call to a function that (transitively) reads it, must reach the caller as an error.
+    def primitive_read(q, cs):
+        name = cs.declared_norm
+        if not (name in ("[T]::get", "parse::ParseAt::parse_at", "parse::ReadBytesExt::get_bytes") or name in ENDIAN_READS):
+            return False
+        bufs = {T.param(i) for (qq, pidx, _) in done if qq == q for i in pidx}
+        if any(vs for (qq, _, vs) in done if qq == q):
+            bufs.add(T.proj(T.deref(T.param(1)), data_field))
+        return any(is_buf(a, bufs) for a in cs.arg_values())
+    readers = set()
+    for q in seen_fns:
+        if any(primitive_read(q, cs) for cs in analyze_fn(F, F.fns[q][0]).calls()):
+            readers.add(q)
+    changed = True
+    while changed:
+        changed = False
+        for fn in F.all_fns():
+            if fn["qual"] in readers:
+                continue
+            for cs in analyze_fn(F, fn).calls():
+                lf = prog.local_fn(cs.callee)
+                if lf is not None and lf["qual"] in readers:
+                    readers.add(fn["qual"])
+                    changed = True
+                    break
+    rep.info["readers"] = sorted(readers)
+    n_prop = 0
+    for fn in F.all_fns():
+        q = fn["qual"]
+        if not (q in seen_fns or q in readers):
+            continue
+        an = analyze_fn(F, fn)
+        for cs in an.calls():
+            lf = prog.local_fn(cs.callee)
+            reads = (lf is not None and lf["qual"] in readers and lf["qual"] != q) or (q in seen_fns and primitive_read(q, cs))
+            if not reads:
+                continue
+            dty = nm(cs.term["dest"]["ty"])
+            if not (dty.startswith("result::Result") or dty.startswith("option::Option")):
+                continue
+            n_prop += 1
+            ok, why = failure_propagated(an, cs, dty)
+            rep.require(ok, "read-failure-propagates", "%s|%s" % (q, cs.callee_norm), cs.where(), why,
+                        "%s: a failed read in %s does not end in an error (%s): on a truncated file the query answers differently instead of failing"
+                        % (q, cs.callee_norm, why))
+            if ok and "{closure" in q:
+                # the closure's own result goes to a core combinator, which this rule cannot follow
+                rep.bad("read-failure-propagates", "%s|closure" % q, cs.where(),
+                        "UNRECOGNISED: the closure %s reads the file (via %s); its result is consumed by a combinator, so propagation of a failed read cannot be followed" % (q, cs.callee_norm))
+    rep.floor("read-failure-propagates", "reads / read-performing calls", n_prop, 20)
     rep.floor("file-buffer-use", "functions seeing the file buffer", len(seen_fns), 20)
     rep.floor("file-buffer-use", "uses classified", n_uses, 20)
     rep.info["use_counts"] = counts
@@ -257,6 +361,10 @@ def run(ctx, rep):
                     if mentions(val) and not fn["qual"].startswith("elf_stream::ElfStream::open_stream"):
                         rep.bad("stream-length-observed", "%s|return" % fn["qual"], wh(fn["span"]), "%s returns a value computed from the stream length" % fn["qual"])
         rep.floor("stream-length-observed", "guards on stream_len", n_obs, 1)
+        # the stream parser's reads: a range beyond the measured length is refused by load_bytes; that refusal (and every I/O failure)
+        # must reach the caller as an error - the same discipline rule as C17
+        from ..streamrules import rule_error_discipline
+        rule_error_discipline(F, rep, "stream-read-failure-propagates")
     rep.info["argument"] = EXPLANATION_PROOF
     rep.trusted_base += ["<[u8]>::get(a..b) returns exactly bytes [a,b) or None; bounded parses read only via get (C04)",
                         "sub-buffers (section / segment slices) have header-designated extents and are therefore not length-tainted"]
